@@ -456,3 +456,46 @@ Proof.
   unfold take. destruct (blen p <? n); [discriminate|]. intros H. injection H as <- <-.
   symmetry. apply firstn_skipn.
 Qed.
+
+(* ---------- the fuel unpackb uses (3 * length) always suffices ---------- *)
+Lemma enc_nonempty v : (1 <= List.length (enc v))%nat.
+Proof.
+  destruct v; cbn [enc]; try (cbn; lia).
+  - destruct b; cbn; lia.
+  - unfold enc_int. repeat match goal with |- context [if ?c then _ else _] => destruct c end; cbn [List.length]; lia.
+  - rewrite app_length. unfold str_hdr. repeat match goal with |- context [if ?c then _ else _] => destruct c end; cbn [List.length]; lia.
+  - rewrite app_length. unfold bin_hdr. repeat match goal with |- context [if ?c then _ else _] => destruct c end; cbn [List.length]; lia.
+  - rewrite app_length. unfold arr_hdr. repeat match goal with |- context [if ?c then _ else _] => destruct c end; cbn [List.length]; lia.
+  - rewrite app_length. unfold map_hdr. repeat match goal with |- context [if ?c then _ else _] => destruct c end; cbn [List.length]; lia.
+  - rewrite app_length. unfold ext_hdr. repeat match goal with |- context [if ?c then _ else _] => destruct c end; cbn [List.length]; lia.
+Qed.
+
+Lemma hdr_nonempty_arr n : (1 <= List.length (arr_hdr n))%nat.
+Proof. unfold arr_hdr. repeat match goal with |- context [if ?c then _ else _] => destruct c end; cbn [List.length]; lia. Qed.
+Lemma hdr_nonempty_map n : (1 <= List.length (map_hdr n))%nat.
+Proof. unfold map_hdr. repeat match goal with |- context [if ?c then _ else _] => destruct c end; cbn [List.length]; lia. Qed.
+
+Lemma fuel_of_bound : forall v, (fuel_of v + 1 <= 3 * List.length (enc v))%nat.
+Proof.
+  induction v using mv_ind'; try (pose proof (enc_nonempty MNil); cbn [fuel_of]; match goal with |- context [enc ?x] => pose proof (enc_nonempty x) end; lia).
+  - assert (G : (fuel_list l <= 3 * List.length (enc_list l))%nat).
+    { induction H as [|x t Hx _ IH]; [cbn; lia|]. cbn [fuel_list enc_list]. rewrite app_length. lia. }
+    rewrite fuel_of_arr, enc_arr, app_length. pose proof (hdr_nonempty_arr (N.of_nat (List.length l))). lia.
+  - assert (G : (fuel_pairs l <= 3 * List.length (enc_pairs l))%nat).
+    { induction H as [|[k x] t [Hk Hx] _ IH]; [cbn; lia|]. cbn [fuel_pairs enc_pairs fst snd] in *. rewrite !app_length. lia. }
+    rewrite fuel_of_map, enc_map, app_length. pose proof (hdr_nonempty_map (N.of_nat (List.length l))). lia.
+Qed.
+
+Theorem unpackb_enc v : mv_wf v = true -> unpackb (enc v) = UOk v.
+Proof.
+  intros H. unfold unpackb.
+  pose proof (dec_enc v H [] (3 * List.length (enc v))%nat) as D. rewrite app_nil_r in D.
+  rewrite D; [reflexivity|]. pose proof (fuel_of_bound v). lia.
+Qed.
+
+(* a truncated encoding is never accepted by unpackb *)
+Theorem unpackb_truncated v p s : mv_wf v = true -> enc v = p ++ s -> s <> [] -> forall w, unpackb p <> UOk w.
+Proof.
+  intros Hwf E Hs w. unfold unpackb. destruct (dec (3 * List.length p) p) as [v0 r| | |] eqn:D; try discriminate.
+  exfalso. exact (dec_prefix_free v p s _ v0 r Hwf E Hs D).
+Qed.
